@@ -902,7 +902,11 @@ class EvalMixin(InterpBase):
         con = None if force_inline else self.contract_for(info, recv)
         if con is not None and not (self.top is not None and con is self.top and self.depth == 0):
             bound = self.bind_params(info, args, kwargs, fr)
-            return self.apply_contract(con, bound, fr, info.module, info.cls)
+            cuts = self.call_cuts_for(info, fr)
+            self.do_call_cuts(cuts, "before", fr)
+            res = self.apply_contract(con, bound, fr, info.module, info.cls)
+            self.do_call_cuts(cuts, "after", fr)
+            return res
         if self.depth > 14:
             raise Unsupported(f"inline depth exceeded at {info.key}")
         if spec_guard(fr):
@@ -922,6 +926,34 @@ class EvalMixin(InterpBase):
             self.frames.pop()
             self.depth -= 1
             self.cur_line = saved_line
+
+    def call_cuts_for(self, info, fr):
+        """The proof cuts the contract under proof places at this call (function under proof only, never inside inlined callees)."""
+        top = self.top
+        if top is None or self.depth != 0 or fr.spec or fr.func is None or not getattr(top, "call_cuts", None):
+            return []
+        mine = [c for c in top.call_cuts if c[0] == info.key]
+        if not mine:
+            return []
+        short = info.qualname.split(".")[-1]
+        calls = [n for n in ast.walk(fr.func.node) if isinstance(n, ast.Call) and
+                 ((isinstance(n.func, ast.Name) and n.func.id == short) or (isinstance(n.func, ast.Attribute) and n.func.attr == short))]
+        calls.sort(key=lambda n: (n.lineno, n.col_offset))
+        line = getattr(self, "cur_line", 0)
+        here = [i for i, n in enumerate(calls) if n.lineno <= line <= (n.end_lineno or n.lineno)]
+        if len(here) != 1:
+            raise Unsupported(f"proof cut: the call of {info.key} at line {line} cannot be told apart from its neighbours")
+        return [(here[0], line) + c for c in mine if c[4] is None or here[0] in c[4]]
+
+    def do_call_cuts(self, cuts, when, fr):
+        for (ordn, line, _callee, w, label, text, _ords) in cuts:
+            if w != when:
+                continue
+            sfr = Frame(fr.module, fr.cls, fr.func, True, parent=fr)
+            sfr.defs = dict(self.top.defs)
+            g = zbool(truth(self.ev(parse_expr(text), sfr)))
+            self.run.oblige(f"{self.top.key}@L{line}:cut{ordn}.{when}.{label}", g, kind="proof-cut")
+            self.run.assume(g)
 
     def call_abstract(self, recv, key, args, kwargs, fr):
         con = self.registry.get(key)
